@@ -101,12 +101,13 @@ def stencil_grad(seed, k, eps, zmask, container='list'):
 # closed forms for Poisson models linear (affine) in their parameters
 
 class Lin:
-    def __init__(self, k, seed, affine, ns):
+    def __init__(self, k, seed, affine, ns, pts=(10,)):
         self.k, self.seed, self.affine, self.ns = k, seed, affine, tuple(ns)
-        B = OPS._basis(self.ns, k + 1, seed)
+        c = 1.0 + 0.3 / float(np.sum(pts))
+        B = [b * c for b in OPS._basis(self.ns, k + 1, seed)]
         self.B0 = B[0] * (1.0 if affine else 0.0)
         self.B = B[1:]
-        self.func = OPS.MODELS['linear'](k, seed, affine)
+        self.func = OPS.make_fn({'$fn': 'model', 'id': 'linear', 'args': [k, seed, bool(affine)]}, lambda w: w)
 
     def unmasked(self, data):
         import dadi
@@ -214,11 +215,11 @@ def _gate(R1, R2, Rc, eps, conds, central, R4=None):
     return ok, out
 
 
-def closed_form(fn, k, seed, ns, p0, multinom, eps, dseed, nboot, log=False, nested=None, full=None, adjusts=None, perm=None):
+def closed_form(fn, k, seed, ns, p0, multinom, eps, dseed, nboot, log=False, nested=None, full=None, adjusts=None, perm=None, pts=(10,)):
     """fn in FIM, GIM, LRT, Wald, score.  Calls dadi at eps and 2*eps, compares with the closed form."""
     import dadi
     from dadi import Godambe
-    lin = Lin(k, seed, multinom, ns)
+    lin = Lin(k, seed, multinom, ns, pts)
     func = lin.func
     shape = [n + 1 for n in ns]
     model = lin.M(p0)
@@ -231,7 +232,7 @@ def closed_form(fn, k, seed, ns, p0, multinom, eps, dseed, nboot, log=False, nes
     else:
         boots_call = list(boots)
     adj_call = None if not adjusts else ([adjusts[i] for i in perm] if perm else list(adjusts))
-    pts = [10]
+    pts = list(pts)
 
     def call(e):
         if fn == 'FIM':
@@ -312,18 +313,18 @@ def closed_form(fn, k, seed, ns, p0, multinom, eps, dseed, nboot, log=False, nes
     return out
 
 
-def perm_invariance(fn, k, seed, ns, p0, multinom, eps, dseed, nboot, perm, nested=None, full=None):
+def perm_invariance(fn, k, seed, ns, p0, multinom, eps, dseed, nboot, perm, nested=None, full=None, pts=(10,)):
     """GIM / LRT / Wald / score under a permutation of the bootstraps agree to rounding (amplified by cond J)"""
     import dadi
     from dadi import Godambe
-    lin = Lin(k, seed, multinom, ns)
+    lin = Lin(k, seed, multinom, ns, pts)
     func = lin.func
     model = lin.M(p0)
     rs = np.random.RandomState(dseed)
     data = dadi.Spectrum(model * (1 + 0.03 * rs.standard_normal(model.shape)).clip(0.3, 3))
     boots = [dadi.Spectrum(model * (1 + 0.25 * np.random.RandomState(dseed * 100 + b).standard_normal(model.shape)).clip(0.2, 4))
              for b in range(nboot)]
-    pts = [10]
+    pts = list(pts)
 
     def call(bs):
         if fn == 'GIM':
